@@ -25,7 +25,7 @@ ASSUMPTIONS = [
     "PYTHONHASHSEED is fixed (0) in both the sequence process and the fresh baseline process",
     "for compiled ACLs only result equality under reuse is required (matching overwrites their scratch 'match' field)",
 ]
-FLOORS = {"quick": {"jobs_in_sequences": 60, "fresh_baselines": 30, "snapshots_compared": 180, "repeated_jobs": 6, "same_vendor_other_hw": 6, "acl_jobs": 6, "rule_mutating_logic_jobs": 4, "nested_dropped_row_jobs": 8},
+FLOORS = {"quick": {"jobs_in_sequences": 60, "fresh_baselines": 30, "snapshots_compared": 180, "repeated_jobs": 6, "same_vendor_other_hw": 6, "acl_jobs": 6, "rule_mutating_logic_jobs": 4, "nested_dropped_row_jobs": 8, "reference_tracker_jobs": 6, "shared_compiled_acl_jobs": 12},
           "thorough": {"jobs_in_sequences": 2500, "fresh_baselines": 400, "snapshots_compared": 7500, "repeated_jobs": 200, "same_vendor_other_hw": 200, "acl_jobs": 200}}
 NPROC = {"quick": 8, "thorough": 16}
 FAMILIES = {"huawei": ["Huawei", "Huawei CE6870", "Huawei NE40E-X8", "Huawei Quidway S5300"], "huawei ce": ["Huawei CE0000", "Huawei NE40E-X8", "Huawei Quidway S5700"],
@@ -52,6 +52,27 @@ NESTED = [
      "new": "interface Ethernet1/1\n channel-group 1 mode active\n mtu 9100\ninterface port-channel1\n mtu 9100\n"},
     {"kind": "hand", "model": "Huawei OptiXtrans", "old": "foo bar\n baz qux\n  deep er\n", "new": "foo bar\n baz qux\n  deep er\n quux 1\n"},
     {"kind": "hand", "model": "B4com", "old": "foo bar\n baz qux\n", "new": "foo bar\n baz quz\n"},
+]
+
+# jobs sharing ONE compiled ACL object (compile_acl_text is cached per text): job A has a row matched by two ACL rules whose
+# children carry the same child rule with different flags (matching merges them), job B a row matched by one of them only
+SHARED_ACL = "interface */Ethernet\\S+/  %cant_delete=1\n    mtu *  %cant_delete=1\n    description ~\ninterface */\\S+\\.\\d+/  %cant_delete=1\n    mtu *  %cant_delete=0\n    description ~ %cant_delete=1\n"
+ACL_PAIRS = [
+    [{"kind": "hand", "model": m, "old": "interface Ethernet1.100\n mtu 9000\n description a\n", "new": "interface Ethernet1.100\n", "acl": SHARED_ACL},
+     {"kind": "hand", "model": m, "old": "interface Ethernet1\n mtu 9000\n description a\n", "new": "interface Ethernet1\n", "acl": SHARED_ACL}]
+    for m in ("Cisco Catalyst 2960", "Arista", "Cisco Nexus")
+]
+# jobs run with a reference tracker (the configs of a referring and a defining generator order the patch) followed by a job of
+# the same hardware without one, whose rows occur in those configs
+REF_PAIRS = [
+    [{"kind": "hand", "model": m, "old": "", "new": "service dhcp\ninterface Vlan10\n ip access-group FOO in\nip access-list extended FOO\n permit ip any any\n",
+      "refs": [[[["interface Vlan10", [["ip access-group FOO in", []]]]], [["ip access-list extended FOO", []]]]]},
+     {"kind": "hand", "model": m, "old": "", "new": "ip access-list extended FOO\n permit ip any any\nservice dhcp\ninterface Vlan10\n description x\nhostname h\n"}]
+    for m in ("Cisco Catalyst", "Cisco Catalyst 2960")
+] + [
+    [{"kind": "hand", "model": "Huawei CE6870", "old": "", "new": "acl number 3000\n rule 5 permit ip\ninterface Vlanif10\n traffic-filter inbound acl 3000\nsysname h\n",
+      "refs": [[[["interface Vlanif10", [["traffic-filter inbound acl 3000", []]]]], [["acl number 3000", []]]]]},
+     {"kind": "hand", "model": "Huawei CE6870", "old": "", "new": "sysname h\ninterface Vlanif10\n description x\nacl number 3000\n rule 5 permit ip\n"}]
 ]
 
 
@@ -137,6 +158,11 @@ def plan(tier, seed):
         jc = [j for j in jobs if j.get("sample", "").startswith("juniper_comments") and not j.get("acl")]
         seq += [dict(rng.choice(jc)) for _ in range(2)]     # the vendor diff logic that writes into the matched rule's attributes
         rng.shuffle(seq)
+        # ordered pairs (A then B): a shared compiled ACL, and a reference tracker followed by a tracker-less job
+        pa, pr = rng.choice(ACL_PAIRS), rng.choice(REF_PAIRS)
+        at = rng.randrange(len(seq) + 1)
+        seq[at:at] = [dict(pa[0]), dict(pa[1])]
+        seq += [dict(pr[0]), dict(pr[1])]
         specs.append({"mode": "seq", "tier": tier, "seed": seed, "seq": seq})
     return specs
 
@@ -182,7 +208,7 @@ def synth_rb(hw):
     return {"patching": compile_patching_text(SYNTH_RB, v), "ordering": compile_ordering_text("", v), "deploying": compile_deploying_text("", v)}
 
 
-def compute(hw, old, new, acl_text, synth=False):
+def compute(hw, old, new, acl_text, synth=False, refs=None):
     """the observed computation: diff, patch, ordered config"""
     from annet.api import _diff_and_patch
     from annet.patching import Orderer
@@ -194,8 +220,17 @@ def compute(hw, old, new, acl_text, synth=False):
     fmt = v.make_formatter()
     acl = compile_acl_text(acl_text, v.NAME) if acl_text else None
     out = {}
+    ref_track = None
+    if refs:
+        from annet.reference import RefTracker
+        ref_track = RefTracker()
+        for i, (rcfg, dcfg) in enumerate(refs):
+            rc, dc = type("RefGen%d" % i, (), {}), type("DefGen%d" % i, (), {})
+            ref_track.add(rc, dc)
+            ref_track.config(rc, unplain(rcfg))
+            ref_track.config(dc, unplain(dcfg))
     try:
-        diff, patch = _diff_and_patch(c01.Dev(hw), old, new, acl, None, False, rb=(synth_rb(hw) if synth else None))
+        diff, patch = _diff_and_patch(c01.Dev(hw), old, new, acl, None, False, ref_track=ref_track, rb=(synth_rb(hw) if synth else None))
         out["diff"] = norm_diff(diff)
         out["cmds"] = [list(p) for p in fmt.cmd_paths(patch)]
     except Exception as e:
@@ -218,7 +253,7 @@ def child():
     """fresh-process baseline: reads jobs (JSON list) on stdin, computes the FIRST only ... one job per process"""
     job = json.load(sys.stdin)
     hw, old, new, acl = materialise(job)
-    print("RESULT " + json.dumps(compute(hw, old, new, acl, job["kind"] == "synth"), sort_keys=True))
+    print("RESULT " + json.dumps(compute(hw, old, new, acl, job["kind"] == "synth", job.get("refs")), sort_keys=True))
 
 
 def baseline(job):
@@ -272,7 +307,11 @@ def run_seq(spec, acc):
             acc.count("rule_mutating_logic_jobs")
         rb = synth_rb(hw) if synth else rulebook.get_rulebook(hw)
         snap = (plain(old), plain(new), c18.R_hash(c18.rb_signature(rb)))
-        got = compute(hw, old, new, acl, synth)
+        got = compute(hw, old, new, acl, synth, job.get("refs"))
+        if job.get("refs"):
+            acc.count("reference_tracker_jobs")
+        if job.get("acl") == SHARED_ACL:
+            acc.count("shared_compiled_acl_jobs")
         after = (plain(old), plain(new), c18.R_hash(c18.rb_signature(synth_rb(hw) if synth else rulebook.get_rulebook(hw))))
         acc.count("jobs_in_sequences")
         acc.count("snapshots_compared", 3)
@@ -300,7 +339,7 @@ def run_seq(spec, acc):
             acc.violation("C20/result-depends-on-history", "a job gives a different result after other jobs in the same process than alone in a fresh process",
                           dict(w, differs_in=k, in_sequence=got.get(k), fresh=base[jid].get(k)))
             return
-        again = compute(hw, old, new, acl, synth)
+        again = compute(hw, old, new, acl, synth, job.get("refs"))
         if again != got:
             acc.violation("C20/repeat-differs", "repeating the same computation gives a different answer", dict(w, differs_in=first_difference(again, got)))
             return
